@@ -1,0 +1,78 @@
+//go:build verif
+
+package autocert
+
+import (
+	mathrand "math/rand"
+	"sync"
+	"time"
+)
+
+// verifScriptedSource is a math/rand Source that replays a fixed list of 63-bit values
+// and yields 0 once the list is used up.
+type verifScriptedSource struct {
+	vals []int64
+	i    int // number of Int63 calls so far
+}
+
+func (s *verifScriptedSource) Int63() int64 {
+	s.i++
+	if s.i > len(s.vals) {
+		return 0
+	}
+	return s.vals[s.i-1] & (1<<63 - 1)
+}
+func (s *verifScriptedSource) Seed(int64) {}
+
+var verifRandMu sync.Mutex
+
+// VerifRenewalNext calls the real domainRenewal.next for a Manager with the given RenewBefore
+// and clock (property C51). pseudoRand is a package variable, so for the duration of the call
+// it is replaced by a lockedMathRand over a scripted source (values replayed in order, then 0):
+// the jitter drawn by next is then a function of the arguments alone.
+// drawn reports how many times the source was asked for a value.
+func VerifRenewalNext(renewBefore time.Duration, notBefore, notAfter, now time.Time, scripted []int64) (d time.Duration, drawn int, panicked bool) {
+	verifRandMu.Lock()
+	defer verifRandMu.Unlock()
+	src := &verifScriptedSource{vals: scripted}
+	old := pseudoRand
+	pseudoRand = &lockedMathRand{rnd: mathrand.New(src)}
+	defer func() {
+		pseudoRand = old
+		drawn = src.i
+		if e := recover(); e != nil {
+			panicked = true
+		}
+	}()
+	m := &Manager{RenewBefore: renewBefore, nowFunc: func() time.Time { return now }}
+	dr := &domainRenewal{m: m}
+	return dr.next(notBefore, notAfter), 0, false
+}
+
+// VerifSetNow installs the Manager's clock (the unexported nowFunc test seam).
+func VerifSetNow(m *Manager, now func() time.Time) { m.nowFunc = now }
+
+// VerifStopRenew stops all renewal timers of m (Manager.stopRenew).
+func VerifStopRenew(m *Manager) { m.stopRenew() }
+
+// VerifRenewalCount reports the number of domains with a running renewal timer.
+func VerifRenewalCount(m *Manager) int {
+	m.renewalMu.Lock()
+	defer m.renewalMu.Unlock()
+	return len(m.renewal)
+}
+
+// VerifBlockRenewal marks the renewal loop of (domain, isRSA) as already running, so that
+// Manager.startRenew is a no-op for that key: the harness observes GetCertificate alone,
+// without background renewals talking to the cache and the CA.
+func VerifBlockRenewal(m *Manager, domain string, isRSA bool) {
+	m.renewalMu.Lock()
+	defer m.renewalMu.Unlock()
+	if m.renewal == nil {
+		m.renewal = make(map[certKey]*domainRenewal)
+	}
+	ck := certKey{domain: domain, isRSA: isRSA}
+	if m.renewal[ck] == nil {
+		m.renewal[ck] = &domainRenewal{m: m, ck: ck}
+	}
+}
